@@ -337,7 +337,27 @@ def r13_4_required_columns(ctx: Ctx, rule: str = "R13.4") -> None:
                     uses_child = any(ch[-1] == meth or (meth == "is_supported_by" and "is_supported_by" in ch) for ch in sl.chains) or any(call_attr(cc) == meth for cc in sl.calls)
                     if not (reads and uses_child):
                         covered = False
-                if covered and checked:
+                # acceptance must *imply* that the child is supported: `A or B and child_ok` consults the child without
+                # depending on it (operator precedence, a dropped parenthesis)
+                weak = None
+                if covered and checked and meth == "is_supported_by":
+                    from .. import boolfn as B
+
+                    truth = B.function_truth(ctx.paths(f))
+                    if truth is not None:
+                        atoms = [a for a in B.atoms_of(truth) if f"self.{fld}" in a and "is_supported_by" in a]
+                        if atoms and len(B.atoms_of(truth)) <= B.MAX_ATOMS:
+                            if not any(B.implies(truth, ("atom", a))[0] for a in atoms):
+                                weak = atoms[0]
+                if weak is not None:
+                    run.fail(
+                        rule,
+                        inst,
+                        f"{c.name}.is_supported_by can be True although `{weak}` is False (the test of `{fld}` is consulted but the answer "
+                        "does not depend on it - check the grouping of and/or): an engine-restricted sub-expression is accepted by the wrong engine",
+                        fi=f,
+                    )
+                elif covered and checked:
                     run.ok(rule, inst)
                 else:
                     run.fail(
